@@ -87,10 +87,15 @@ def CORRELATION(x, y=None, maxlags=None, norm='unbiased'):
     assert norm in ['unbiased','biased', 'coeff', None]
     #transform lag into list if it is an integer
     x = np.array(x)
+    if x.dtype.kind in 'iub':
+        # integer samples: the lag products would wrap around in the integer type
+        x = x.astype(float)
     if y is None:
         y = x
     else:
         y = np.array(y)
+        if y.dtype.kind in 'iub':
+            y = y.astype(float)
 
     # N is the max of x and y
     N = max(len(x), len(y))
@@ -197,8 +202,16 @@ def xcorr(x, y=None, maxlags=None, norm='biased'):
 
     .. seealso:: :func:`CORRELATION`.
     """
+    x = np.asarray(x)
+    if x.dtype.kind in 'iub':
+        # integer samples: the lag products would wrap around in the integer type
+        x = x.astype(float)
     if y is None:
         y = x
+    else:
+        y = np.asarray(y)
+        if y.dtype.kind in 'iub':
+            y = y.astype(float)
     if len(x) != len(y):
         # the shorter vector is zero-padded to the length of the longer one
         N = max(len(x), len(y))
